@@ -53,13 +53,38 @@ const (
 
 var actNames = []string{"-", "FIN", "RST", "DOWN", "UP"}
 
-func messages(kind int) [][]byte {
+// messages returns the messages to hand over and pristine copies of them for the oracle.
+func messages(kind int) (hand, want [][]byte) {
+	hand = messagesOf(kind)
+	for _, m := range hand {
+		want = append(want, append([]byte{}, m...))
+	}
+	return
+}
+
+const nKinds = 4
+
+func messagesOf(kind int) [][]byte {
 	big := bytes.Repeat([]byte(`{"k":"0123456789abcdef"},`), 2800) // ~70 KB
 	switch kind {
 	case 0:
 		return [][]byte{[]byte(`{"n":1}`), []byte(`{"n":2,"v":"x"}`), []byte(`{"n":3}`), []byte(`{"n":4,"l":[1,2]}`), []byte(`{"n":5}`), []byte(`{"n":6}`)}
 	case 1: // per cent sequences
 		return [][]byte{[]byte(`{"n":1,"v":"100%"}`), []byte(`{"n":2,"v":"%d %s %v"}`), []byte(`{"n":3,"v":"%%"}`), []byte(`{"n":4,"v":"%"}`), []byte(`{"n":5,"v":"%!d(MISSING)"}`), []byte(`{"n":6,"v":"%5.2f%x"}`)}
+	case 3: // a batching caller: the messages are adjacent sub-slices of ONE buffer (each has spare capacity: its successors)
+		var buf []byte
+		var cuts []int
+		for _, m := range messagesOf(0) {
+			buf = append(buf, m...)
+			cuts = append(cuts, len(buf))
+		}
+		var out [][]byte
+		a := 0
+		for _, b := range cuts {
+			out = append(out, buf[a:b])
+			a = b
+		}
+		return out
 	default: // sizes: empty, multi-kilobyte, 70 KB
 		return [][]byte{[]byte(`{"n":1}`), append([]byte(`{"n":2,"big":[`), append(big, []byte(`0]}`)...)...), []byte(``), append([]byte(`{"n":4,"kb":"`), append(bytes.Repeat([]byte("y"), 5000), []byte(`"}`)...)...), []byte(`{"n":5}`), []byte(`{"n":6}`)}
 	}
@@ -331,7 +356,7 @@ func tcpSpace(tier string) mck.Space {
 		}
 	}
 	rec(1, []int{aNone}, 0)
-	dims := mck.Radix{uint64(len(seqs)), 3, 3}
+	dims := mck.Radix{uint64(len(seqs)), 3, nKinds}
 	return mck.FuncSpace{N: dims.Size(), F: func(idx uint64, c *mck.Ctx) {
 		d := dims.Digits(idx)
 		fc := faultCase{kind: d[2], retry: d[1], actions: seqs[d[0]]}
@@ -358,7 +383,7 @@ func tcpSpace(tier string) mck.Space {
 }
 
 func runTCPCase(c *mck.Ctx, fc faultCase) {
-	msgs := messages(fc.kind)
+	hand, msgs := messages(fc.kind)
 	desc := func() interface{} { return map[string]interface{}{"case": fc.String(), "protocol": "tcp"} }
 	c.SetCase(desc)
 	s := newSink()
@@ -434,7 +459,7 @@ func runTCPCase(c *mck.Ctx, fc faultCase) {
 			}
 		}
 		select {
-		case p.Chan <- append([]byte{}, m...):
+		case p.Chan <- hand[i]:
 			handed++
 		case <-time.After(10 * time.Second):
 			c.Violation("producer:stuck", fmt.Sprintf("the producer did not take message %d within 10 s", i+1), desc())
@@ -555,10 +580,10 @@ func runTCPCase(c *mck.Ctx, fc faultCase) {
 // udpSpace: udp socket configuration; the sink is a UDP listener that is up / down per message.
 func udpSpace(tier string) mck.Space {
 	const nmsg = 6
-	dims := mck.Radix{1 << (nmsg - 1), 3, 3} // sink down-mask for messages 2..6, retry-max, message kind
+	dims := mck.Radix{1 << (nmsg - 1), 3, nKinds} // sink down-mask for messages 2..6, retry-max, message kind
 	return mck.FuncSpace{N: dims.Size(), F: func(idx uint64, c *mck.Ctx) {
 		d := dims.Digits(idx)
-		msgs := messages(d[2])
+		hand, msgs := messages(d[2])
 		desc := func() interface{} {
 			return map[string]interface{}{"protocol": "udp", "sink_down_mask": fmt.Sprintf("%05b", d[0]), "retry-max": d[1], "messages": d[2]}
 		}
@@ -633,7 +658,7 @@ func udpSpace(tier string) mck.Space {
 				}
 			}
 			select {
-			case p.Chan <- append([]byte{}, m...):
+			case p.Chan <- hand[i]:
 				sent++
 			case <-time.After(10 * time.Second):
 				c.Violation("producer:stuck", "udp: the producer did not take a message within 10 s", desc())
